@@ -547,6 +547,9 @@ func TestPropHistories(t *testing.T) {
 		m := &model{}
 		var hist []op
 		tomb, tombThenMut := false, false
+		var itemsBefore, itemsKept []ordered.TupleSA
+		var twin *ordered.MapSA
+		var twinModel *model
 		if rapid.IntRange(0, 5).Draw(t, "fromitems") == 0 {
 			// MapFromItems with repeated keys: documented as Set in order
 			var items []ordered.TupleSA
@@ -557,6 +560,12 @@ func TestPropHistories(t *testing.T) {
 				hist = append(hist, op{Kind: "set", K: k, V: i})
 			}
 			real = ordered.MapFromItems(items...)
+			// the caller keeps its slice, and builds a second map from it: both must stay what they are
+			// whatever happens to the first map (the maps own their storage)
+			itemsBefore = append([]ordered.TupleSA{}, items...)
+			itemsKept = items
+			twin = ordered.MapFromItems(items...)
+			twinModel = m.clone()
 		}
 		// big mode: pre-populate so long delete runs cross the compaction threshold often
 		if bigMode {
@@ -594,6 +603,17 @@ func TestPropHistories(t *testing.T) {
 					t.Fatalf("%v\nhistory: %s", err, showOps(hist))
 				}
 			}
+		}
+		if twin != nil {
+			if err := observe(twin, twinModel, probe, true); err != nil {
+				t.Fatalf("a second map built from the same items changed while the first one was operated on: %v\nhistory: %s", err, showOps(hist))
+			}
+			for i := range itemsBefore {
+				if itemsKept[i].Key != itemsBefore[i].Key || !valueEq(itemsKept[i].Value, itemsBefore[i].Value) {
+					t.Fatalf("the caller's item slice handed to MapFromItems was modified by operations on the map: item %d is now %v, was %v\nhistory: %s", i, itemsKept[i], itemsBefore[i], showOps(hist))
+				}
+			}
+			recSM.Class("from-items-with-twin")
 		}
 		h := ev.HashStr(showOps(hist))
 		cls := []string{"mode=small"}
